@@ -96,6 +96,26 @@ pub fn obs_diff_cap(a: &Obs, b: &Obs, la: &str, lb: &str, mask_only: bool, cap: 
             format!("{la}.error={} {lb}.error={}", a.error, b.error),
         ));
     }
+    // force_bytes() forces at most step_max_items bytes per call (forcing fewer bytes is always
+    // allowed). For grammars that force (nearly) unbounded text, how much is forced - and hence
+    // whether the mask is narrowed to the next forced token - depends on where earlier calls
+    // stopped. Only prefix-compatibility of the forced text is required then.
+    let capped = |x: &Option<Vec<u8>>| x.as_ref().map(|v| v.len() >= cap).unwrap_or(false);
+    let long_forced = capped(&a.ff_bytes)
+        || capped(&b.ff_bytes)
+        || a.ff_tokens.len() >= cap / 8
+        || b.ff_tokens.len() >= cap / 8;
+    if long_forced {
+        if let (Some(x), Some(y)) = (&a.ff_bytes, &b.ff_bytes) {
+            if !(x.starts_with(y) || y.starts_with(x)) {
+                return Some((
+                    "ff_bytes".into(),
+                    format!("{la} and {lb} forced bytes are not prefix-compatible"),
+                ));
+            }
+        }
+        return None;
+    }
     match (&a.mask, &b.mask) {
         (Some(x), Some(y)) => {
             if let Some((t, in_a)) = mask_diff(x, y) {
@@ -140,20 +160,6 @@ pub fn obs_diff_cap(a: &Obs, b: &Obs, la: &str, lb: &str, mask_only: bool, cap: 
             "accepting".into(),
             format!("{la}.accepting={:?} {lb}.accepting={:?}", a.accepting, b.accepting),
         ));
-    }
-    let capped = |x: &Option<Vec<u8>>| x.as_ref().map(|v| v.len() >= cap).unwrap_or(false);
-    let long_forced = capped(&a.ff_bytes) || capped(&b.ff_bytes) || a.ff_tokens.len() >= cap / 8 || b.ff_tokens.len() >= cap / 8;
-    let prefix_compat = |x: &[u8], y: &[u8]| x.starts_with(y) || y.starts_with(x);
-    if long_forced {
-        // force_bytes() forces at most step_max_items bytes per call (forcing fewer bytes is
-        // always allowed): for grammars that force (nearly) unbounded text the amount reported
-        // depends on where earlier calls stopped; only prefix-compatibility is required then
-        if let (Some(x), Some(y)) = (&a.ff_bytes, &b.ff_bytes) {
-            if !prefix_compat(x, y) {
-                return Some(("ff_bytes".into(), format!("{la} and {lb} forced bytes are not prefix-compatible")));
-            }
-        }
-        return None;
     }
     if a.ff_tokens != b.ff_tokens {
         return Some((
